@@ -1,0 +1,21 @@
+//go:build verif
+
+package exchange
+
+import "github.com/thanos-community/promql-engine/execution/model"
+
+// VerifChildren exposes the child slots of the operators of this package to the
+// verification harness (build tag verif only).
+func VerifChildren(op model.VectorOperator) []*model.VectorOperator {
+	switch o := op.(type) {
+	case *coalesceOperator:
+		out := make([]*model.VectorOperator, len(o.operators))
+		for i := range o.operators {
+			out[i] = &o.operators[i]
+		}
+		return out
+	case *concurrencyOperator:
+		return []*model.VectorOperator{&o.next}
+	}
+	return nil
+}
